@@ -369,6 +369,11 @@ func (s *pState) flush(cw *cwriter.Writer, height int, iter <-chan *Bar) error {
 	for b := range iter {
 		frame := <-b.frameCh
 		if frame.err != nil {
+			// let the renders already started finish their width sync,
+			// otherwise a bar may block in decor.WC.Format forever
+			for b := range iter {
+				<-b.frameCh
+			}
 			close(s.iterDrop)
 			b.cancel()
 			return frame.err // b.frameCh is buffered it's ok to return here
